@@ -17,7 +17,8 @@
  *   lprofile <l> bw|lat|state <period|-1> <n> (<date> <value>)*n
  *   disk <h> <name> <read_bw> <write_bw>                disks are numbered from 0 in declaration order
  *   route <hsrc> <hdst> <n> <l>...                      symmetrical
- *   observe                                             log remaining work / loads at every on_time_advance
+ *   observe [k]                                         log loads at every on_time_advance, and the remaining work of the
+ *                                                       activities in progress at every k-th one (default 1)
  *   actor <h>                                           following op lines belong to this actor
  * Operations (ids are small integers chosen by the generator, unique per activity):
  *   sleep <d> | until <date>
@@ -102,6 +103,8 @@ static std::vector<RouteSpec> rspecs;
 static std::vector<ProfSpec> hprofs, lprofs;
 static std::vector<ActorSpec> actors;
 static bool host_energy = false, link_energy = false, observe = false;
+static int observe_every = 1; // remaining work is read at every observe_every-th clock advance only (reading it updates lazy actions)
+static long advances     = 0;
 
 static std::vector<sg4::Host*> hosts;
 static std::vector<sg4::Link*> links;
@@ -382,8 +385,10 @@ static void parse(const char* path)
       for (int i = 0; i < n; i++)
         r.links.push_back(std::stoi(t[4 + i]));
       rspecs.push_back(r);
-    } else if (k == "observe")
-      observe = true;
+    } else if (k == "observe") {
+      observe       = true;
+      observe_every = t.size() > 1 ? std::stoi(t[1]) : 1;
+    }
     else if (k == "actor") {
       ActorSpec a;
       a.host = std::stoi(t[1]);
@@ -406,8 +411,9 @@ static void on_time_advance(double delta)
   std::ostringstream o;
   o << "{\"e\":\"adv\",\"t\":" << d2s(sg4::Engine::get_clock()) << ",\"delta\":" << d2s(delta) << ",\"rem\":{";
   bool first = true;
+  advances++;
   for (auto& [id, a] : acts) {
-    if (a.logged || a.kind == "ptask")
+    if (a.logged || a.kind == "ptask" || advances % observe_every != 0)
       continue;
     auto* impl = a.ptr->get_impl();
     if (impl->model_action_ == nullptr)
